@@ -159,6 +159,10 @@ pub fn check_c16(c: &Concrete, hash_seeds: &[u64]) -> (Vec<Violation>, Outcome, 
         for (_, canary) in canaries() {
             let _ = execute(&canary);
         }
+        // ... and after a compilation of the same sources whose sink failed half-way
+        let mut failing = c2.clone();
+        failing.sink = SinkPlan::FailAt { call: 1, kind: "Other".into() };
+        let _ = execute(&failing);
         execute(&c2).observation()
     });
     match (fresh, used) {
